@@ -228,7 +228,7 @@ Lemma slip_decode_encode s : wf_slip s = true -> decode_slip (encode_slip s) = O
 Proof.
   intro W. pose proof (slip_has_widths s W) as HW. pose proof (slip_size s W) as HL.
   unfold decode_slip. rewrite HL. cbn [negb]. replace (SLIP_SIZE =? SLIP_SIZE) with true by reflexivity.
-  cbn [negb]. unfold encode_slip. unfold wf_slip, two64 in W. split_and.
+  cbn [negb]. unfold encode_slip. unfold wf_slip in W. split_and. unfold two64 in *.
   field 0%nat. field 1%nat. field 2%nat. field 3%nat.
   rewrite (be_enc_1 (s_index s)) in * by lia. rewrite (be_enc_1 (s_type s)) in * by lia.
   field_ix 4%nat. field_ix 5%nat.
@@ -356,6 +356,11 @@ Section ItemsFacts.
       rewrite IH by (assumption || lia). reflexivity.
   Qed.
 
+End ItemsFacts.
+
+Section ItemsFacts2.
+  Context {A : Type} (site size : N) (dec : list N -> res A) (enc : A -> list N).
+
   (* what a successful run has read *)
   Lemma dec_items_ok_inv :
     (forall x v, bytes_ok x = true -> dec x = Ok v -> enc v = x) ->
@@ -395,7 +400,7 @@ Section ItemsFacts.
       inv_bind H. inv_bind H. inv_bind H. inversion H; subst items; clear H.
       apply sl_ok in E. constructor; [|eauto]. apply (HP x x0); [eapply slice_ok; eauto|assumption].
   Qed.
-End ItemsFacts.
+End ItemsFacts2.
 
 Lemma dec_items_fields {A} site size (dec : list N -> res A) (enc : A -> list N) (wf : A -> bool)
       fs ws k (items : list A) fuel n off :
@@ -450,17 +455,24 @@ Proof.
 Qed.
 
 Ltac items_side HLn :=
-  first [ assumption | reflexivity
-        | apply slip_decode_encode | apply slip_size | apply hop_decode_encode | apply hop_size
-        | (cbn [length]; lia)
-        | (rewrite <- HLn; unfold size_tx, Nlen, TRANSACTION_SIZE, SLIP_SIZE, HOP_SIZE in *; lia)
-        | (cbn [firstn sumN]; unfold TRANSACTION_SIZE, SLIP_SIZE, HOP_SIZE; lia) ].
+  match goal with
+  | |- forall _, _ = true -> _ = Ok _ => first [apply slip_decode_encode | apply hop_decode_encode]
+  | |- forall _, _ = true -> Nlen _ = _ => first [apply slip_size | apply hop_size]
+  | |- has_widths _ _ => assumption
+  | |- (_ < _)%nat => cbn [length]; lia
+  | |- (_ <= _)%nat =>
+      rewrite <- HLn; unfold size_tx, Nlen, TRANSACTION_SIZE, SLIP_SIZE, HOP_SIZE in *; lia
+  | |- nth _ _ _ = _ => reflexivity
+  | |- forallb _ _ = true => assumption
+  | |- _ = sumN _ => cbn [firstn sumN]; unfold TRANSACTION_SIZE, SLIP_SIZE, HOP_SIZE; lia
+  | |- _ = Nlen _ => reflexivity
+  end.
 
 Lemma tx_decode_encode t : wf_tx t = true -> decode_tx (encode_tx t) = Ok t.
 Proof.
   intro W. pose proof (tx_has_widths t W) as HW. pose proof (tx_size t W) as HL.
   rewrite (encode_tx_wf t W) in *.
-  unfold wf_tx, two64, two32 in W. split_and.
+  unfold wf_tx in W. split_and. unfold two64, two32 in *.
   assert (HLn : (N.to_nat (size_tx t) = length (concat (tx_fields t)))%nat) by (now apply Nlen_to_nat).
   unfold decode_tx. rewrite HL.
   replace (size_tx t <? TRANSACTION_SIZE) with false by (unfold size_tx, TRANSACTION_SIZE, SLIP_SIZE, HOP_SIZE; lia).
@@ -488,4 +500,63 @@ Proof.
   cbn [bind].
   rewrite !be_dec_enc by (rewrite ?pow256_8, ?pow256_4; lia).
   destruct t; reflexivity.
+Qed.
+
+Lemma eqb_false_255 n : (255 <? n) = false -> n <= 255.
+Proof. lia. Qed.
+
+(* canonical form: the decoder reads exactly the encoding of what it returns,
+   as a prefix of the buffer (trailing bytes are ignored by the decoder) *)
+Lemma tx_canonical_prefix bs t :
+  bytes_ok bs = true -> decode_tx bs = Ok t -> slice 0 (size_tx t) bs = Some (encode_tx t).
+Proof.
+  intros Hb H. unfold decode_tx in H.
+  destruct (Nlen bs <? TRANSACTION_SIZE) eqn:EL; [discriminate|].
+  inv_bind H. destruct (255 <? be_dec x) eqn:Ein; [discriminate|].
+  inv_bind H. destruct (255 <? be_dec x0) eqn:Eout; [discriminate|].
+  inv_bind H. inv_bind H. inv_bind H. inv_bind H. inv_bind H. inv_bind H.
+  destruct (negb (x6 <? 9)) eqn:Ety; [discriminate|].
+  cbv zeta in H. unfold TRANSACTION_SIZE, SLIP_SIZE, HOP_SIZE in *.
+  inv_bind H. inv_bind H. inv_bind H. inv_bind H. inversion H; subst t; clear H.
+  pose proof (ix_ok_lt _ _ _ _ Hb E6) as Bty.
+  apply (ix_ok_slice _ _ 93) in E6; [|reflexivity].
+  rewrite sl_ok in *.
+  assert (B0 : 93 <= Nlen bs) by lia.
+  destruct (dec_items_ok_inv 309 59 decode_slip encode_slip slip_canonical bs Hb _ _ _ _ B0 E7)
+    as (L7 & S7).
+  pose proof S7 as S7'. apply slice_some in S7' as (_ & B7 & _).
+  destruct (dec_items_ok_inv 310 59 decode_slip encode_slip slip_canonical bs Hb _ _ _ _ B7 E8)
+    as (L8 & S8).
+  pose proof E9 as S9'. apply slice_some in S9' as (_ & B9 & _).
+  destruct (dec_items_ok_inv 312 130 decode_hop encode_hop (fun x v _ H => hop_canonical x v H) bs Hb _ _ _ _ B9 E10)
+    as (L10 & S10).
+  pose proof (slice_Nlen _ _ _ _ E9) as L9.
+  clear E7 E8 E10.
+  unfold encode_tx, size_tx, TRANSACTION_SIZE, SLIP_SIZE, HOP_SIZE.
+  cbn [t_from t_to t_data t_path t_sig t_ts t_repl t_type].
+  rewrite L7, L8, L10. rewrite Ein, Eout.
+  replace (Nlen x9) with (be_dec x1) by lia.
+  rewrite (be_enc_dec_slice 4 _ _ _ _ Hb E eq_refl), (be_enc_dec_slice 4 _ _ _ _ Hb E0 eq_refl),
+          (be_enc_dec_slice 4 _ _ _ _ Hb E1 eq_refl), (be_enc_dec_slice 4 _ _ _ _ Hb E2 eq_refl),
+          (be_enc_dec_slice 8 _ _ _ _ Hb E4 eq_refl), (be_enc_dec_slice 4 _ _ _ _ Hb E5 eq_refl),
+          (be_enc_1 x6 Bty).
+  merge_slices.
+  match goal with HS : slice 0 ?e bs = Some ?y |- slice 0 ?e' bs = Some ?y' =>
+    replace e' with e by lia; rewrite HS; f_equal end.
+  cbn [concat]. rewrite app_nil_r, <- ?app_assoc. reflexivity.
+Qed.
+
+Lemma tx_canonical bs t :
+  bytes_ok bs = true -> decode_tx bs = Ok t -> Nlen bs = size_tx t -> encode_tx t = bs.
+Proof.
+  intros Hb H HL. pose proof (tx_canonical_prefix bs t Hb H) as S.
+  apply (slice_whole bs (size_tx t)); [exact S|now rewrite HL].
+Qed.
+
+(* the unconditional form fails: trailing bytes are accepted and dropped *)
+Lemma tx_canonical_refuted :
+  exists bs t, bytes_ok bs = true /\ decode_tx bs = Ok t /\ encode_tx t <> bs.
+Proof.
+  exists (repeat 0 93 ++ [7]). eexists. split; [reflexivity|]. split; [vm_compute; reflexivity|].
+  vm_compute. discriminate.
 Qed.
